@@ -12,7 +12,7 @@ open S3V S3V.SigV4
 /-- the verdict logic, exactly (no well-formedness hypothesis): `v4_check_presigned_url` accepts, and attributes the
     request to the access key / region / service of `X-Amz-Credential`, iff the six parameters parse, the algorithm
     is AWS4-HMAC-SHA256, the credential scope names the day of `X-Amz-Date`, every listed header is in the request,
-    `x-amz-content-sha256` (if present) is admissible, the date is a calendar instant, the key
+    `x-amz-content-sha256` (if present; edge SP / HTAB removed, d453cd3) is admissible, the date is a calendar instant, the key
     is known, `now` lies in `[date − 900 s, date + expires]`, and the recomputed signature is the presented one -/
 theorem C06_accept_conditions (sha256hex : Bytes → Bytes) (hmac : Bytes → Bytes → Bytes)
     (look : Bytes → Option Bytes) (nowNs : Int) (c : Ctx) (ak region service : Bytes) :
